@@ -396,6 +396,27 @@ def g_from_points(ctx, rng, i):
                 g.Transformation.from_points(*[(g.Point(a), g.Point(b)) for a, b in zip(src2, dst2)])
             except Exception as e:
                 ctx.judge("from_points", False, [src2, dst2], what=f"from_points raised {type(e).__name__}: {e} for frames in general position", op="from_points")
+    # real points in representatives with a complex (imaginary) common factor: as typed, and as the library's own mirror / center return them
+    if mode == "int":
+        facs = [gen.pick(rng, [1, 1j, -2j, 1 + 1j]) for _ in range(n + 1)]
+        facs[-1] = gen.pick(rng, [1j, -3j])
+        try:
+            g.Transformation.from_points(*[(g.Point(s), g.Point(d * f_)) for s, d, f_ in zip(src, dst, facs)])
+        except Exception as e:  # noqa: BLE001
+            ctx.judge("from_points", False, [src, dst], what=f"from_points raised {type(e).__name__}: {str(e)[:80]} for targets with a complex common factor", op="from_points", feat={"exc": type(e).__name__})
+        hyp = (g.Line if dim == 2 else g.Plane)(np.append(gen.nonzero_vec(rng, dim, 3), int(rng.integers(-4, 5))))
+        try:
+            mirrored = [hyp.mirror(g.Point(d)) for d in dst]
+            msrc = [np.asarray(m_.array) for m_ in mirrored]
+            gp2 = all(np.linalg.matrix_rank(np.stack([msrc[k] for k in c])) == n for c in itertools.combinations(range(n + 1), n))
+        except Exception:
+            gp2 = False
+        if gp2:
+            try:
+                g.Transformation.from_points(*[(g.Point(s), m_) for s, m_ in zip(src, mirrored)])
+                g.Transformation.from_points(*[(m_, g.Point(s)) for s, m_ in zip(src, mirrored)])
+            except Exception as e:  # noqa: BLE001
+                ctx.judge("from_points", False, [src, msrc], what=f"from_points raised {type(e).__name__}: {str(e)[:80]} for targets returned by mirror()", op="from_points", feat={"exc": type(e).__name__})
     # the same frame onto itself gives the identity
     t2 = g.Transformation.from_points(*[(p, p) for p, _ in pairs])
     ok = X.proj_residual(np.asarray(t2.array).ravel(), np.eye(n).ravel()) < 1e-8
